@@ -21,6 +21,7 @@ func profileFor(prop string) Profile {
 	case "C04":
 		p.MaxRules, p.MaxClauses, p.PSegmentOp, p.PPrereq, p.PTargets, p.PCtxTargets, p.PKindAttr, p.PRollout = 2, 3, 0.03, 0.0, 0.05, 0.05, 0.15, 0.1
 		p.MaxFlags, p.MaxSegs, p.POff = 0, 1, 0.02
+		p.Ops = append(append([]string{}, allOps...), "in", "in", "in") // equality sets have a precomputed form of their own
 	case "C05":
 		p.PSegmentOp, p.PBigSeg, p.MinSegs, p.MaxSegs, p.PPrereq, p.PTargets, p.PCtxTargets, p.POff = 0.75, 0.0, 2, 5, 0.05, 0.05, 0.05, 0.02
 		p.PMulti = 0.5
